@@ -32,27 +32,80 @@ func (c *Ctx) schemaDecoderEvents() *schemaDecoderEvents {
 	}
 	// the generic map: a local of type map[string]interface{} (or a named type of that shape) that the whole
 	// input is decoded into
-	var gen types.Object
-	ast.Inspect(u.Body, func(n ast.Node) bool {
-		call, ok := n.(*ast.CallExpr)
-		if !ok || !c.isPkgFunc(call, "encoding/json", "Unmarshal") || len(call.Args) != 2 {
-			return true
-		}
-		un, ok := unparen(call.Args[1]).(*ast.UnaryExpr)
-		if !ok || un.Op != token.AND {
-			return true
-		}
-		id, ok := unparen(un.X).(*ast.Ident)
-		if !ok {
-			return true
-		}
-		if mt, isMap := c.objOf(id).Type().Underlying().(*types.Map); isMap && isStringType(mt.Key()) {
-			if _, isIface := mt.Elem().Underlying().(*types.Interface); isIface {
-				gen = c.objOf(id)
+	// genIn: the local of a function that the whole input is decoded into as a generic map
+	genIn := func(fd *ast.FuncDecl) types.Object {
+		var gen types.Object
+		ast.Inspect(fd.Body, func(n ast.Node) bool {
+			call, ok := n.(*ast.CallExpr)
+			if !ok || !c.isPkgFunc(call, "encoding/json", "Unmarshal") || len(call.Args) != 2 {
+				return true
 			}
-		}
-		return true
-	})
+			un, ok := unparen(call.Args[1]).(*ast.UnaryExpr)
+			if !ok || un.Op != token.AND {
+				return true
+			}
+			id, ok := unparen(un.X).(*ast.Ident)
+			if !ok {
+				return true
+			}
+			if mt, isMap := c.objOf(id).Type().Underlying().(*types.Map); isMap && isStringType(mt.Key()) {
+				if _, isIface := mt.Elem().Underlying().(*types.Interface); isIface {
+					gen = c.objOf(id)
+				}
+			}
+			return true
+		})
+		return gen
+	}
+	gen := genIn(u)
+	// ... or a helper decodes it and hands the map back among its results
+	var producer *ast.FuncDecl
+	var producerGen types.Object
+	var producerAt token.Pos
+	if gen == nil {
+		ast.Inspect(u.Body, func(n ast.Node) bool {
+			as, ok := n.(*ast.AssignStmt)
+			if !ok || len(as.Rhs) != 1 || gen != nil {
+				return true
+			}
+			call, ok := unparen(as.Rhs[0]).(*ast.CallExpr)
+			if !ok {
+				return true
+			}
+			g, _ := c.callee(call).(*types.Func)
+			if g == nil || g.Pkg() != c.Types {
+				return true
+			}
+			gfd := c.decl(g)
+			if gfd == nil || gfd.Body == nil {
+				return true
+			}
+			hg := genIn(gfd)
+			if hg == nil {
+				return true
+			}
+			idx := -1
+			ast.Inspect(gfd.Body, func(m ast.Node) bool {
+				if _, isLit := m.(*ast.FuncLit); isLit {
+					return false
+				}
+				if rs, ok := m.(*ast.ReturnStmt); ok {
+					for i, r := range rs.Results {
+						if id, ok := unparen(r).(*ast.Ident); ok && c.objOf(id) == hg {
+							idx = i
+						}
+					}
+				}
+				return true
+			})
+			if idx >= 0 && idx < len(as.Lhs) {
+				if id, ok := as.Lhs[idx].(*ast.Ident); ok && c.objOf(id) != nil {
+					gen, producer, producerGen, producerAt = c.objOf(id), gfd, hg, call.Pos()
+				}
+			}
+			return true
+		})
+	}
 	if gen == nil {
 		return ev
 	}
@@ -160,6 +213,9 @@ func (c *Ctx) schemaDecoderEvents() *schemaDecoderEvents {
 			}
 			return true
 		})
+	}
+	if producer != nil {
+		walk(producer, map[types.Object]bool{producerGen: true}, map[types.Object]bool{}, producerAt, 1)
 	}
 	walk(u, map[types.Object]bool{gen: true}, map[types.Object]bool{}, token.NoPos, 0)
 	return ev
